@@ -58,12 +58,16 @@ func (w *shWorld) sign(k int, msg []byte) []byte {
 	return b
 }
 
+func shNewKey() *shKey {
+	pri, pub, err := keypair.GenerateKeyPair(keypair.PK_ECDSA, keypair.P256)
+	vhMust(err)
+	return &shKey{pri, pub}
+}
+
 func shNewWorld(n, c int) *shWorld {
 	w := &shWorld{sigc: map[string][]byte{}}
 	for i := 0; i <= n; i++ {
-		pri, pub, err := keypair.GenerateKeyPair(keypair.PK_ECDSA, keypair.P256)
-		vhMust(err)
-		w.keys = append(w.keys, &shKey{pri, pub})
+		w.keys = append(w.keys, shNewKey())
 	}
 	var peers []*config.VBFTPeerStakeInfo
 	var bookkeepers []keypair.PublicKey
